@@ -13,7 +13,7 @@ def _validate(lines, rep):
     byid = {ln[0]["tid"]: ln[0] for ln in lines}
     for v in mon.viols:
         case = byid.get(v[0], {})
-        rep.violation(v[2], {"tid": v[0], "detail": v[3], "seed": case.get("seed")},
+        rep.violation(v[2], {"tid": v[0], "detail": v[3], "seed": case.get("seed"), "marathon": bool(case.get("marathon"))},
                       replay={"kind": "gen:" + case.get("kind", "run"), "seed": case.get("seed")}, sig={"clause": v[2]})
     return mon
 
@@ -27,7 +27,8 @@ def run(tier):
         rep.add_model(cfg, r)
         if r.violated:
             raise MachineryError(f"Generator.tla violates {r.violated}")
-    lines = driver_gen.gen_lines(N[tier], common.seed() + 15)
+    # besides the random cases: one generator instance emitting > 2^16 pipelines (identity only; in the thorough tier also with every draw)
+    lines = driver_gen.gen_lines(N[tier], common.seed() + 15, n_ids=1 if tier == "quick" else 6, n_marathon=0 if tier == "quick" else 3)
     mon = _validate(lines, rep)
     rep.traces, rep.evaluations = mon.traces, mon.counters.get("pipelines", 0)
     rep.extra["situations"] = mon.counters
@@ -39,7 +40,7 @@ def run(tier):
     c = mon.counters
     if c.get("events_undecidable_call_pattern", 0):
         print(f"DRIFT: {c['events_undecidable_call_pattern']} arrival events used an RNG call pattern the specification does not know; draw-argument clauses were not decided for them (structure and ratio-pair clauses were)")
-    need = {"events": 1500, "later_operators": 3000, "zero_prob_classes": 30, "runs_subtick_mean": 10, "opcount_draws_below_one": 100, "ratio_pairs": 10}
+    need = {"events": 1500, "later_operators": 3000, "zero_prob_classes": 30, "runs_subtick_mean": 10, "opcount_draws_below_one": 100, "ratio_pairs": 10, "pipelines_identity_only": 66000}
     lack = {k: c.get(k, 0) for k, m in need.items() if c.get(k, 0) < m}
     if lack and not rep.violations:
         raise MachineryError(f"vacuity: {lack}")
@@ -51,8 +52,8 @@ def replay(path):
     rp = payload.get("replay") or {}
     rep = Report("C15", "quick")
     common.import_repo()
-    f = driver_gen.pair_case if rp.get("kind") == "gen:pair" else driver_gen.run_case
-    res = f(rp["seed"], 0)
+    f = {"gen:pair": driver_gen.pair_case, "gen:idhdr": driver_gen.ids_case}.get(rp.get("kind"), driver_gen.run_case)
+    res = f(rp["seed"], 0, marathon=True) if payload.get("detail", {}).get("marathon") else f(rp["seed"], 0)
     mon = _validate([res if isinstance(res, list) else [res]], rep)
     for v in mon.viols[:10]:
         print("  ", json.dumps(v)[:300])
